@@ -67,6 +67,11 @@ func applyHdr(h *GzHdr, name, comment *string, extra *[]byte, mt *time.Time, osb
 
 // newAnyWriter builds the fastgo Writer for a setting.
 func newAnyWriter(dst io.Writer, s PSetting) (anyWriter, error) {
+	return newAnyWriterDict(dst, s, s.dictBytes())
+}
+
+// newAnyWriterDict: as newAnyWriter, with the dictionary (if the setting has one) in a buffer the caller keeps.
+func newAnyWriterDict(dst io.Writer, s PSetting, dict []byte) (anyWriter, error) {
 	switch s.Pkg {
 	case "gzip":
 		w, err := fgzip.NewWriterLevel(dst, s.Level)
@@ -78,13 +83,13 @@ func newAnyWriter(dst io.Writer, s PSetting) (anyWriter, error) {
 		}
 		return w, nil
 	case "zlib":
-		w, err := fzlib.NewWriterLevelDict(dst, s.Level, s.dictBytes())
+		w, err := fzlib.NewWriterLevelDict(dst, s.Level, dict)
 		if err != nil {
 			return nil, err
 		}
 		return w, nil
 	default:
-		w, err := newFlateWriter(dst, s.WSetting)
+		w, err := newFlateWriterDict(dst, s.WSetting, dict)
 		if err != nil {
 			return nil, err
 		}
